@@ -387,6 +387,27 @@ def check_inverse(fx, R, f, fwd):
     simple = isinstance(cond, tuple) and cond[0] in ('>', '>=') and cond[1] == 'delta'
     capped_simple = capped and len(cond) == 3 and any(isinstance(p_, tuple) and p_[0] in ('>', '>=') and p_[1] == 'delta' for p_ in cond[1:]) and \
         any(isinstance(p_, tuple) and len(p_) == 3 and p_[0] in ('<', '<=', '!=') and isinstance(p_[1], str) and p_[1] != 'delta' for p_ in cond[1:])
+    # what the loop compares with the tolerance must BE the length of the step just taken: |new latitude - previous latitude| (the name `delta` says nothing)
+    if (simple or capped_simple) and ids.get('delta') is not None:
+        dv = lb[0].locals.get(ids['delta'])
+        if isinstance(dv, sp.Basic) and isinstance(new_lat, sp.Basic):
+            try:
+                wsub = {y_: sp.Float(v_) for y_, v_ in zip(sorted((dv.free_symbols | new_lat.free_symbols), key=str), (0.7312, 1.137, 0.2917, 0.8811, 1.4142, 0.5531, 0.3779, 1.2345, 0.9107, 0.6421))}
+                got_d, want_d = sp.N(dv.subs(wsub), 30), sp.N(sp.Abs(new_lat - lat).subs(wsub), 30)
+                if got_d.is_real and want_d.is_real:
+                    if abs(got_d - want_d) > sp.Float('1e-12') * (1 + abs(want_d)):
+                        R.violated('F2', 'ECEFConverter::toWGS84:step-length', 'the quantity the loop compares with its tolerance is `%s`, not |new latitude - previous latitude| (on a witness state it is %s where '
+                                   'the step is %s): %s' % (str(dv)[:120], sp.N(got_d, 6), sp.N(want_d, 6),
+                                                            'the test stays above the tolerance although the iteration has converged - the loop never ends (or runs to its cap) for latitudes away from the equator'
+                                                            if got_d > want_d else 'the loop can stop while the latitude is still moving'), loc, 'E-STEP')
+                    else:
+                        R.holds('F2', 'ECEFConverter::toWGS84:step-length', 'the tested quantity is |new - previous| latitude', loc, 'E-STEP')
+                else:
+                    R.undecided('F2', 'ECEFConverter::toWGS84:step-length', 'step length not evaluable on the witness state')
+            except (TypeError, ValueError):
+                R.undecided('F2', 'ECEFConverter::toWGS84:step-length', 'step length not evaluable on the witness state')
+        else:
+            R.undecided('F2', 'ECEFConverter::toWGS84:step-length', '`delta` is not assigned a readable value in the loop body')
     if simple:
         R.holds('F2', 'ECEFConverter::toWGS84:loop-exit', 'iterates while delta > tolerance', loc, 'E-STATE')
     elif capped_simple:
